@@ -470,13 +470,13 @@ COMMON = (report_fns("stub", "diagn") + bigint_stubs + itemref_items("util") + e
 value_stubs2 = [v for v in value_stubs if v.name != "expect_error_or_usize"]
 # ---- #if blocks whose condition never became a boolean (C03): the failure must carry a diagnostic
 check_leftover_ifs = Fn(
-    "src/asm/resolver/directive_if.rs", "check_leftover_ifs", slot="resolver", ret="res", key="check_leftover_ifs", props=["C03"],
+    "src/asm/resolver/directive_if.rs", "check_leftover_ifs", slot="resolver", ret="res", key="check_leftover_ifs", props=["C03", "C16"],
     ensures=[
-        C("err_is_loud", "res is Err ==> final(report).msgs() > old(report).msgs()", ["C03"]),
-        C("ok_is_clean", "res is Ok ==> final(report).msgs() == old(report).msgs() && final(report).errors() == old(report).errors()", ["C03"]),
-        C("ok_means_no_if_left", "res is Ok ==> forall|j: int| 0 <= j < ast.nodes@.len() ==> !(#[trigger] ast.nodes@[j] is DirectiveIf)", ["C03"]),
-        C("err_means_an_if_is_left", "res is Err ==> exists|j: int| 0 <= j < ast.nodes@.len() && #[trigger] ast.nodes@[j] is DirectiveIf", ["C03"]),
-        C("parents_balanced", "final(report).parents() == old(report).parents()", ["C03"]),
+        C("err_is_loud", "res is Err ==> final(report).msgs() > old(report).msgs()", ["C03", "C16"]),
+        C("ok_is_clean", "res is Ok ==> final(report).msgs() == old(report).msgs() && final(report).errors() == old(report).errors()", ["C03", "C16"]),
+        C("ok_means_no_if_left", "res is Ok ==> forall|j: int| 0 <= j < ast.nodes@.len() ==> !(#[trigger] ast.nodes@[j] is DirectiveIf)", ["C03", "C16"]),
+        C("err_means_an_if_is_left", "res is Err ==> exists|j: int| 0 <= j < ast.nodes@.len() && #[trigger] ast.nodes@[j] is DirectiveIf", ["C03", "C16"]),
+        C("parents_balanced", "final(report).parents() == old(report).parents()", ["C03", "C16"]),
     ],
     for_to_while=[1],
     loops={1: Loop(invariant=[
@@ -485,12 +485,39 @@ check_leftover_ifs = Fn(
     ], decreases="ast.nodes@.len() - verif_next_1")},
 )
 
+
+eval_simple_stub = Fn(FEV, "eval_simple", slot="resolver", mode="stub", ret="res", ensures=LOUD + [
+    C("value_from_constants_alone", "res is Ok ==> res->Ok_0 == simple_value(decls, defs, expr)")])
+resolve_ifs = Fn(
+    "src/asm/resolver/directive_if.rs", "resolve_ifs", slot="resolver", ret="res", key="resolve_ifs", props=["C16", "C03"],
+    ensures=[
+        C("err_is_loud", "res is Err ==> final(report).msgs() > old(report).msgs()", ["C03"]),
+        C("ok_is_clean", "res is Ok ==> final(report).msgs() == old(report).msgs() && final(report).errors() == old(report).errors()", ["C03"]),
+        C("parents_balanced", "final(report).parents() == old(report).parents()", ["C03"]),
+        C("each_decided_if_is_replaced_by_its_selected_arm", "res is Ok ==> final(ast).nodes@ == expand_from(decls, defs, old(ast).nodes@, 0)", ["C16"]),
+        C("count_is_the_number_of_decided_ifs", "res is Ok ==> res->Ok_0 == decided_from(decls, defs, old(ast).nodes@, 0)", ["C16"]),
+    ],
+    rewrites=[
+        Rewrite(r"println!\((?:[^()]|\((?:[^()]|\((?:[^()]|\([^()]*\))*\))*\))*\);", "", regex=True, rule="R7", why="debug printing statement deleted", count=1),
+        Rewrite(r"ast\.nodes\.splice\(\s*n\.\.n,\s*([^;]*?)\);", r"verif_splice_in(&mut ast.nodes, n, \1);", regex=True, count=2, rule="R27",
+                why="Vec::splice with an empty range (an insertion) -> prelude wrapper with the assumed contract of that insertion"),
+    ],
+    for_to_while=[1],
+    loops={1: Loop(invariant=[
+        C("clean", "report.msgs() == old(report).msgs() && report.errors() == old(report).errors() && report.parents() == old(report).parents()"),
+        C("range", "verif_lo_1 == 0 && verif_next_1 <= old(ast).nodes@.len()"),
+        C("processed_suffix", "ast.nodes@ =~= old(ast).nodes@.subrange(0, verif_next_1 as int) + expand_from(decls, defs, old(ast).nodes@, verif_next_1 as int)"),
+        C("count", "resolved_count == decided_from(decls, defs, old(ast).nodes@, verif_next_1 as int)"),
+    ], decreases="verif_next_1",
+       body_start=" proof { lemma_decided_bound(decls, defs, old(ast).nodes@, verif_next_1 as int); }")},
+)
+
 UNIT = Unit(
     "U-resolver", "u_resolver/skeleton.rs",
     items=COMMON + [
               bits_until_alignment, can_guess, get_output_position, get_address, eval_address, advance_address,
               merge, iter_new, iter_next, resolve_once,
-              resolve_label, resolve_res, resolve_align, resolve_addr, resolve_assert, eval_stub, eval_certain_stub, check_leftover_ifs, deflist_define, bankdef_define,
+              resolve_label, resolve_res, resolve_align, resolve_addr, resolve_assert, eval_stub, eval_certain_stub, eval_simple_stub, check_leftover_ifs, resolve_ifs, deflist_define, bankdef_define,
               asm_query_type, asm_result_type, asm_resolve_once_stub, asm_resolve_iteratively, resolve_data_element, resolve_encoding_stub, resolve_instruction, resolve_constant] + value_stubs2 + value_verified,
     serves=["C01", "C02", "C03", "C06", "C09", "C19"],
     description="asm::resolver: address arithmetic (iter.rs), one resolution pass (resolve_once) and the per-item resolvers for labels, #res, #align, #addr, #assert",
